@@ -73,16 +73,16 @@ S == Sessions[si]
 Clean == Cfgs[ci][4]
 
 \* ---- events as the harness records them --------------------------------------------
-MetaOf(o) == LET ob == S.objs[o] IN
+MetaOf(o, hint) == LET ob == S.objs[o] IN
   [loc |-> ob.loc, clen |-> ob.clen, tlen |-> ob.L, type |-> ob.type, md5 |-> ob.md5, etag |-> ob.etag, cenc |-> ob.cenc, groups |-> ob.groups,
-   E |-> ob.E, scheme |-> ob.scheme, B |-> ob.B, cache |-> <<"hint", 3600>>]
+   E |-> ob.E, scheme |-> ob.scheme, B |-> ob.B, cache |-> <<"hint", hint>>]
 \* the object of a writer: from the "new" callbacks of the monitor state and of this call
 WObj(cbs, w) == LET I == {j \in 1..Len(cbs) : cbs[j].k = "new" /\ cbs[j].w = w} IN
                 IF I # {} THEN cbs[CHOOSE j \in I : TRUE].o ELSE IF w \in DOMAIN m.W THEN m.W[w].o ELSE 0
 MonCb(cbs, c, t) ==
   CASE c.k \in {"sopen", "sclosed"} -> [k |-> c.k, ep |-> 10, tsi |-> 1]
     [] c.k = "fdtrx" -> [k |-> "fdtrx", ep |-> 10, tsi |-> 1, ts |-> t]
-    [] c.k = "new" -> [k |-> "new", w |-> c.w, o |-> c.o, ans |-> c.ans, ep |-> 10, tsi |-> 1, toix |-> "1", ts |-> t, meta |-> MetaOf(c.o)]
+    [] c.k = "new" -> [k |-> "new", w |-> c.w, o |-> c.o, ans |-> c.ans, ep |-> 10, tsi |-> 1, toix |-> "1", ts |-> t, meta |-> MetaOf(c.o, c.hint)]
     [] c.k = "open" -> [k |-> "open", w |-> c.w, res |-> c.res, ts |-> t]
     [] c.k = "write" -> [k |-> "write", w |-> c.w, len |-> c.len, tot |-> c.tot, res |-> c.res, got |-> "g", exp |-> "g"]
     [] c.k = "complete" -> [k |-> "complete", w |-> c.w, tot |-> c.tot, dg |-> "d"]
